@@ -273,9 +273,33 @@ def filled_case(draw, tier='quick'):
             'filled': True}
 
 
+@st.composite
+def with_layout(draw, base):
+    """One deck in three is written with cards that start in columns 2-5
+    and break over continuation lines (a card may start anywhere in the first
+    five columns): the importances are the same."""
+    case = draw(base)
+    if draw(st.integers(0, 2)) == 0:
+        case['layout_spec'] = {
+            'indent': True, 'breaks': draw(st.booleans()),
+            'amp': draw(st.booleans()), 'case': draw(st.booleans()),
+            'bits': draw(st.lists(st.integers(0, 11), min_size=6,
+                                  max_size=24))}
+        case['labels'] = sorted(set(case['labels']) | {'layout:indented'})
+    return case
+
+
 def strategy(tier):
-    return st.one_of(imp_case(tier), imp_case(tier), imp_case(tier),
-                     filled_case(tier))
+    return with_layout(st.one_of(imp_case(tier), imp_case(tier),
+                                 imp_case(tier), filled_case(tier)))
+
+
+def render_text(case):
+    spec = case.get('layout_spec')
+    if spec:
+        from .. import layouts
+        return mr.render(case['deck'], layout=layouts.VariedLayout(spec))
+    return mr.render(case['deck'])
 
 
 def budget(tier):
@@ -285,7 +309,7 @@ def budget(tier):
 
 
 def render_case(case):
-    return mr.render(case['deck'])
+    return render_text(case)
 
 
 def sample_repr(case, out):
@@ -297,7 +321,7 @@ NOTE_RE = re.compile(r'importance is equal to zero:\s*\[([^\]]*)\]')
 
 def check(case):
     deck = case['deck']
-    text = mr.render(deck)
+    text = render_text(case)
     labels = list(case['labels'])
     # expected importances (independent expansion of the written tokens)
     cards = {}
